@@ -55,6 +55,26 @@ def _stride_form(value, defs):
     return None
 
 
+def _e8(ctx):
+    ex = ctx.mod(EXP)
+    fh = ex.func("get_csr_header")
+    first = [n for n in ast.walk(fh) if isinstance(n, ast.Assign) and "next(iter(regions))" in norm(n.value) and norm(n.value).endswith(".origin")]
+    lowest = [n for n in ast.walk(fh) if isinstance(n, ast.Assign) and norm(n.value).startswith("min(") and ".origin" in norm(n.value)]
+    ctx.ob("E8", EXP, "get_csr_header", "base of the offsets = origin of the first region (or the lowest origin)", bool(first or lowest),
+           "" if (first or lowest) else "the header's base is no longer taken from the regions (anchor changed)", fh)
+    soc = ctx.mod(SOC)
+    fin = soc.method("SoC", "finalize")
+    adds = [n for n in ast.walk(fin) if isinstance(n, ast.Call) and norm(n.func) == "self.csr.add_region"]
+    sorts = [st for st in fin.body if isinstance(st, ast.Assign) and norm(st.targets[0]) == "self.csr.regions" and
+             any(isinstance(c, ast.Call) and norm(c.func) == "sorted" and
+                 any(k.arg == "key" and ".origin" in norm(k.value) for k in c.keywords) for c in ast.walk(st.value))]
+    ok = bool(lowest) or (bool(adds) and bool(sorts) and max(s.lineno for s in sorts) > max(a.lineno for a in adds))
+    ctx.ob("E8", SOC, "SoC.finalize", "CSR regions are ordered by origin after the last add_region", ok,
+           "" if ok else f"self.csr.add_region is called at L{sorted(a.lineno for a in adds)} and the regions are "
+                         f"{'sorted by origin at L' + str([s.lineno for s in sorts]) if sorts else 'never sorted by origin'} afterwards: the first "
+                         f"published region need not be the lowest, get_csr_header subtracts its origin from every address", fin)
+
+
 def run(ctx):
     ctx.rule("E1", "every CSR-region walker iterates region.obj unfiltered and advances the running address exactly once per "
                    "register by alignment//8 * ceil(size/busword), after having used it", min_sites=16)
@@ -71,6 +91,9 @@ def run(ctx):
     ctx.rule("E7", "a user-fixed CSR location / interrupt number is accepted only inside range(n_locs): the published origin csr_base + "
                    "paging*n stays inside the window the CSR bridge decodes; published memory regions are checked for overlap on the windows "
                    "their decoders match (size_pow2), so that an address selects one slave only (same obligations as C13.A3 / A2)", min_sites=9)
+    ctx.rule("E8", "CSR base agreement: the C header takes the origin of the *first* published CSR region as the base all offsets are "
+                   "relative to, so SoC.finalize leaves the CSR regions ordered by origin after the last region has been added "
+                   "(otherwise a CSR memory mapped below the first bank shifts every address in csr.h)", min_sites=2)
     ctx.rule("E5", "generated multi-word accessors: read and write use the same address expression per word and the same "
                    "MSW-first order", min_sites=4)
 
@@ -302,6 +325,7 @@ def run(ctx):
     from .c13 import loc_bound, overlap_window
     loc_bound(ctx, "E7")
     overlap_window(ctx, "E7")
+    _e8(ctx)
 
 
 def _seq(node, env, lists):
